@@ -161,6 +161,22 @@ impl<'tcx> M<'tcx> {
     // ---------------------------------------------------------------- call dispatch
     pub fn do_call(&mut self, f: &Frame<'tcx>, func: &Operand<'tcx>, args: &[rustc_span::Spanned<Operand<'tcx>>], ret_ty: Ty<'tcx>) -> R<V<'tcx>> {
         let tcx = self.tcx;
+        // a type-level constant (size_of::<T>, align_of, type_name, TypeId::of) of a type PARAMETER, asked for inside a generic vek body: the
+        // behaviour of that body may differ between instantiations, and only the instantiations of the roots are analysed -> recorded, the
+        // checker fails closed unless the site is in its table of audited sites
+        if let ty::FnDef(d, ga) = func.ty(f.body, tcx).kind() {
+            use rustc_middle::ty::TypeVisitableExt;
+            if ga.has_param() && tcx.crate_name(f.inst.def_id().krate).as_str() == "vek" {
+                let n = tcx.def_path_str(*d);
+                if n.ends_with("::size_of") || n.ends_with("::align_of") || n.ends_with("::type_name") || n.ends_with("TypeId::of") || n.ends_with("::size_of_val") || n.ends_with("::needs_drop") {
+                    let site = tcx.def_path_str(f.inst.def_id());
+                    let note = format!("typeconst|{}|{}", n, site);
+                    if !self.events.iter().any(|e| matches!(e, Event::Note(x) if *x == note)) {
+                        self.events.push(Event::Note(note));
+                    }
+                }
+            }
+        }
         let fty = self.mono(f, func.ty(f.body, tcx));
         let mut vals = vec![];
         for a in args {
